@@ -250,6 +250,33 @@ def rule_r5(chk, facts):
            'GetErrorPos() no longer walks the whole input-tag chain')
 
 
+def rule_r6(chk, facts, u):
+    chk.rule('C20-R6', 'as.c: the group size of an IRP/IRPN tag (ParIter, where 0 stands for the plain IRP) is normalised the '
+             'same way wherever it is used: every "x->ParIter == 0 ? A : B" that yields a number has A = 1 and B = '
+             'x->ParIter - the position reporter steps back by the same group size by which the line processor advances',
+             min_instances=3)
+    n = 0
+    for f in u.funcs.values():
+        if f.file != 'as.c':
+            continue
+        for b, i, ln, m in f.nodes():
+            if m[0] != '?':
+                continue
+            c = nocast(m[1])
+            if not (c[0] == 'b' and c[1] == '==' and const_val(c[3]) == 0 and strip(c[2])[0] == 'm' and strip(c[2])[2].endswith('.ParIter')):
+                continue
+            a, bb = nocast(m[2]), nocast(m[3])
+            if a[0] == 's' or bb[0] == 's':
+                continue            # selects a text ("IRP"/"IRPN"), not the group size
+            n += 1
+            ok = const_val(a) == 1 and strip(bb) == strip(c[2])
+            chk.ob('C20-R6', 'as.c:%s:ParIter-normalisation' % f.name, ok, f.loc(ln), '0 -> 1, else the group size' if ok else
+                   'the group size is normalised as "%s ? %s : %s": for a plain IRP it becomes %s, so the reporter does not '
+                   'step back to the argument the failing line was expanded with' % (show(c), show(a), show(bb), show(a)))
+    if n < 3:
+        raise AnalysisBroken('only %d ParIter normalisations found' % n)
+
+
 def run(chk, facts, info):
     P = facts.program('asl')
     u = facts.unit('as.c')
@@ -258,6 +285,7 @@ def run(chk, facts, info):
     rule_r3(chk, facts)
     rule_r4(chk, facts, u, P, cons)
     rule_r5(chk, facts)
+    rule_r6(chk, facts, u)
     chk.note('Decided: callback slots of every input-tag constructor, CurrLine update in every line processor, EXPECT '
              'ordering, save/restore pairing of the position state, chain walk of the position reporter. Not decided: '
              'positions printed for concrete nestings.')
